@@ -239,6 +239,7 @@ func loadDST() {
 	for _, n := range []string{"Europe/Berlin", "America/New_York", "Australia/Lord_Howe", "Pacific/Auckland"} {
 		if l, err := time.LoadLocation(n); err == nil {
 			dstZones = append(dstZones, l)
+			dstByName[n] = l
 		}
 	}
 }
@@ -249,7 +250,9 @@ func ClockAt(d ref.Date, minuteOfDay, second int) time.Time {
 	loadDST()
 	k := ((d.Days()%7+7)%7 + minuteOfDay) % (len(clockZones) + len(dstZones))
 	var loc *time.Location
-	if k < len(clockZones) {
+	if z, ok := dstZoneOf[d]; ok && minuteOfDay%5 != 4 && dstByName[z] != nil {
+		loc = dstByName[z] // a date next to a transition of that zone: mostly observed in that very zone
+	} else if k < len(clockZones) {
 		loc = clockZones[k]
 	} else {
 		loc = dstZones[k-len(clockZones)]
@@ -262,6 +265,29 @@ func ClockAt(d ref.Date, minuteOfDay, second int) time.Time {
 	return t
 }
 
+// dstZoneOf: the zone whose transition the date is next to.
+var dstZoneOf = map[ref.Date]string{
+	{Y: 2024, M: 3, D: 30}: "Europe/Berlin", {Y: 2024, M: 3, D: 31}: "Europe/Berlin", {Y: 2024, M: 4, D: 1}: "Europe/Berlin",
+	{Y: 2024, M: 10, D: 26}: "Europe/Berlin", {Y: 2024, M: 10, D: 27}: "Europe/Berlin", {Y: 2024, M: 10, D: 28}: "Europe/Berlin",
+	{Y: 2024, M: 3, D: 9}: "America/New_York", {Y: 2024, M: 3, D: 10}: "America/New_York", {Y: 2024, M: 3, D: 11}: "America/New_York",
+	{Y: 2024, M: 11, D: 2}: "America/New_York", {Y: 2024, M: 11, D: 3}: "America/New_York", {Y: 2024, M: 11, D: 4}: "America/New_York",
+	{Y: 2024, M: 4, D: 6}: "Pacific/Auckland", {Y: 2024, M: 4, D: 7}: "Pacific/Auckland", {Y: 2024, M: 4, D: 8}: "Pacific/Auckland",
+	{Y: 2024, M: 9, D: 28}: "Pacific/Auckland", {Y: 2024, M: 9, D: 29}: "Pacific/Auckland", {Y: 2024, M: 9, D: 30}: "Pacific/Auckland",
+}
+var dstByName = map[string]*time.Location{}
+
+// IsDSTDate tells whether the date lies next to a daylight-saving transition of one of the zones.
+func IsDSTDate(d ref.Date) bool { _, ok := dstZoneOf[d]; return ok }
+
+// NearMidnight picks a minute of day in the first or last hour of the day (k is any random number).
+func NearMidnight(k int) int {
+	if k%2 == 0 {
+		return (k / 2) % 60
+	}
+	return 1380 + (k/2)%60
+}
+
 // DSTDates are dates around daylight-saving transitions of the zones above (2024).
 var DSTDates = []ref.Date{{Y: 2024, M: 3, D: 30}, {Y: 2024, M: 3, D: 31}, {Y: 2024, M: 4, D: 1}, {Y: 2024, M: 10, D: 26}, {Y: 2024, M: 10, D: 27}, {Y: 2024, M: 10, D: 28},
-	{Y: 2024, M: 3, D: 10}, {Y: 2024, M: 3, D: 11}, {Y: 2024, M: 11, D: 3}, {Y: 2024, M: 11, D: 4}, {Y: 2024, M: 4, D: 7}, {Y: 2024, M: 9, D: 29}}
+	{Y: 2024, M: 3, D: 9}, {Y: 2024, M: 3, D: 10}, {Y: 2024, M: 3, D: 11}, {Y: 2024, M: 11, D: 2}, {Y: 2024, M: 11, D: 3}, {Y: 2024, M: 11, D: 4},
+	{Y: 2024, M: 4, D: 6}, {Y: 2024, M: 4, D: 7}, {Y: 2024, M: 4, D: 8}, {Y: 2024, M: 9, D: 28}, {Y: 2024, M: 9, D: 29}, {Y: 2024, M: 9, D: 30}}
